@@ -7,22 +7,29 @@ F = {
     "F3b": "F3b-neg-of-minus-leading-sstring",
     "F5": "F5-template-strength-dishonest",
     "F16": "F16-generic-div-f-integer",
+    "N5": "C02-N5-sqlite-like-pattern-hole",
+    "N7": "C02-N7-concat-operands-unparenthesised",
     # repaired in /repo (status "fixed"): only used by the directed replays, which must NOT reproduce them
     "F17": "F17-timestamp-literal-text-compare",
     "N1": "C02-N1-regex-op-undocumented",
     "N3": "C02-N3-regexp-strength",
     "N4": "C02-N4-bigquery-degrees-hole",
+    "N6": "C02-N6-like-templates-unparenthesised",
 }
 
 DISHONEST = {"tmpl:div_i", "tmpl:math.log"}
+# C02-N5: the sqlite LIKE templates whose pattern hole (site 1) sits next to `||` with required strength 0
+PATTERN_HOLE = {"tmpl:text.starts_with", "tmpl:text.contains", "tmpl:text.ends_with"}
 
 
-def triple_class(tr):
+def triple_class(tr, dialect=None):
     """the known class of one structurally bad (parent, site, child) triple of Model/SqlCompat.v, or None.
     Mirrors Model/SqlCompat.v `known_triple`."""
     p, site, c = tr
     if c in DISHONEST:
         return F["F5"]
+    if dialect == "sqlite" and p in PATTERN_HOLE and site == 1:
+        return F["N5"]
     return None
 
 
@@ -54,6 +61,21 @@ def classify_e2e(case):
     if case.get("dialect") == "generic" and "DivFloat" in kinds:
         return F["F16"]
     return None
+
+
+def classify_fncall(case):
+    """a std function call whose emitted text the engine regroups: known only when the model's table says so
+    (every bad triple of the case is in a known class) -- and the class is decided by the triple, not by the text"""
+    bt = case.get("bad_triples")
+    if not bt:
+        return None
+    triples, pairs = bt
+    if not triples or pairs:
+        return None
+    cls = [triple_class(t, case.get("dialect")) for t in triples]
+    if any(c is None for c in cls):
+        return None
+    return cls[0]
 
 
 def classify_text(case):
